@@ -4,6 +4,7 @@ from srcgen import regen_src
 from srcreplay import replay_src  # translated source run in Coq vs the real outputs  # pre-build generator: pure Go functions -> Gen/SrcPure.v
 
 PROP = {
+    "confirm_scenarios": ['silence.*'],
     "coq": ["C19", "C19s", "C19b"],
     "pre": [regen_src],
     "extra": [replay_src({'timing'})],
